@@ -220,6 +220,41 @@ theorem cancel_subtree_full_fails :
   revert this
   decide
 
+/-! ### "... becomes CANCELLED together with its parent task" -/
+
+/-- When the result message of a finished child is processed, a plain (not with-items) parent task that is
+    not completed takes exactly the child's final state, and its completion logic runs once: the parent task
+    of a cancelled sub-workflow becomes CANCELLED.  (`tk.wf ≠ x`: the parent task belongs to another execution.) -/
+theorem parent_task_takes_child_state (c : Cfg) (w : World) (x t : Nat) (e pe : Exec) (tk : Task)
+    (hp : w.pending.contains (.rpcChildResult x) = true) (he : w.execs[x]? = some e) (hpar : e.parent = some t)
+    (htk : w.tasks[t]? = some tk) (hnc : isCompleted tk.state = false) (hne : tk.wf ≠ x)
+    (hpe : w.execs[tk.wf]? = some pe)
+    (hplain : ∀ d n cc, kindOf c pe.defn tk.name ≠ some (.subwf d (some n) cc)) :
+    ∃ tk', (step c w (.deliver (.rpcChildResult x))).tasks[t]? = some tk' ∧ tk'.state = e.state ∧
+      tk'.ran = tk.ran + 1 := by
+  have h2 : ∀ e' : Exec, (w.execs.set x e')[tk.wf]? = some pe := fun e' => by
+    rw [List.getElem?_set_ne (Ne.symm hne)]; exact hpe
+  simp only [step, hp, Bool.not_true, Bool.false_eq_true, if_false]
+  unfold childResult
+  simp only [he, hpar, htk, h2]
+  have hk : ∀ (a b : World), (match kindOf c pe.defn tk.name with
+      | some (.subwf _ (some _) _) => a
+      | _ => b) = b := by
+    intro a b; split
+    · rename_i hk; exact absurd hk (hplain _ _ _)
+    · rfl
+  try rw [hk]
+  obtain ⟨tk', h1, h3, h4, _⟩ := completeTask_sets_state c
+    { w with pending := removeFirst w.pending (.rpcChildResult x),
+             execs := w.execs.set x { e with parent := some t, got := e.got + 1 } } t e.state tk pe htk hnc (h2 _)
+  exact ⟨tk', h1, h3, h4⟩
+
+/-- non-vacuity and the whole chain: cancel the root of three nested executions and deliver the two result
+    messages: the middle execution's task and the root's task are CANCELLED. -/
+example : ((run chain3 (chain3Up ++ [.stop 0 .CANCELLED "m", .deliver (.postSendResult 2), .deliver (.rpcChildResult 2),
+      .deliver (.postSendResult 1), .deliver (.rpcChildResult 1)])).tasks.map (·.state)) =
+    [.CANCELLED, .CANCELLED, .IDLE] := by decide
+
 /-! ### "(nor, after a cancel, anywhere below it)" -/
 
 /-- After the cancel transaction, no task row is ever created in an execution the cancel reached: they are
